@@ -58,6 +58,59 @@ def oracle_twice(n, items, out):
     return None
 
 
+def simulator_clause_case(rng, cls, n, given=None):
+    """last clause of C16 on the real simulator (noise-free gate set): measurements written into classical bits 0, 1, ..., m-1
+    in this order, each fed by an arbitrary (not necessarily ascending) qubit; fix_counts(result) must be Qiskit's
+    little-endian table (classical bit 0 = rightmost character), computed here from Qiskit's own Statevector"""
+    import numpy as np
+    from qgv import wiring as W
+    from qiskit import QuantumCircuit
+    from qiskit.quantum_info import Statevector
+    from quantum_gates._utility.simulations_utility import fix_counts
+    from quantum_gates._gates.gates import NoiseFreeGates
+    if given is None:
+        ops, labels = W.random_ops(rng, cls, n, rng.randint(3, 10))
+        ops = [op for op in ops if op[0] not in ("measure", "delay")]
+        m = rng.randint(1, n)
+        fed_by = rng.sample(labels, m)                           # classical bit k is fed by qubit fed_by[k]
+        ops += [["measure", q, k] for k, q in enumerate(fed_by)]
+    else:
+        ops = given
+        labels = sorted({q for op in ops for q in (op[1:3] if op[0] in ("cx", "ecr") else [op[1]]) if op[0] != "barrier"})
+        fed_by = [op[1] for op in ops if op[0] == "measure"]
+        m = len(fed_by)
+    dp = W.tagged_params(max(labels))
+    dp.update(T1=np.ones(max(labels) + 1), T2=np.ones(max(labels) + 1), dt=[1e-9])
+    psi0 = np.eye(1, 2 ** n)[0].astype(complex)
+    r = W.observe_run(cls, ops, n, gates=NoiseFreeGates(), psi0=psi0, device_param=dp, want_result=True)
+    if "err" in r:
+        return ops, f"valid circuit raised {r['err']}: {r.get('msg', '')}"
+    fixed = fix_counts(dict(r["result"]), m)
+    pos = {q: i for i, q in enumerate(sorted(labels))}
+    qc = QuantumCircuit(n)
+    for op in ops:
+        k = op[0]
+        if k == "rz":
+            qc.rz(op[2] * W.UNIT, pos[op[1]])
+        elif k in ("sx", "x"):
+            getattr(qc, k)(pos[op[1]])
+        elif k in ("cx", "ecr"):
+            getattr(qc, k)(pos[op[1]], pos[op[2]])
+    probs = Statevector.from_instruction(qc).probabilities()      # index bit i = qubit i (little endian)
+    want = {format(k, "b").zfill(m): 0.0 for k in range(2 ** m)}
+    for b, pr in enumerate(probs):
+        key = "".join(str(b >> pos[fed_by[k]] & 1) for k in reversed(range(m)))
+        want[key] += float(pr)
+    if list(fixed) != list(want):
+        return ops, f"keys of fix_counts(result) are {list(fixed)[:4]}..., expected {list(want)[:4]}..."
+    dev = max(abs(fixed[k] - want[k]) for k in want)
+    if not dev <= 1e-9:
+        k = max(want, key=lambda k: abs(fixed[k] - want[k]))
+        return ops, (f"fix_counts(simulator result) gives {fixed[k]:.6f} for key {k!r}, Qiskit's little-endian table has {want[k]:.6f} "
+                     f"(classical bits 0..{m - 1} fed by qubits {fed_by})")
+    return ops, None
+
+
 def gen_cases(ctx):
     rng = ctx.rng
     cases = []
@@ -112,6 +165,14 @@ def main(ctx):
                 bad = oracle_twice(n, items, out)
             if bad:
                 oracle_fail.append((n, items, bad))
+    sim_fail, sim_n = [], 0
+    for cls in ("binary", "efficient", "grid"):
+        for _ in range(12 if ctx.thorough else 3):
+            n = ctx.rng.randint(2, 4)
+            ops, bad = simulator_clause_case(ctx.rng, cls, n); ctx.count(); sim_n += 1
+            if bad:
+                sim_fail.append((cls, n, ops, bad))
+    ctx.coverage["simulator_clause_cases"] = sim_n
     ctx.sample({"n": cases[3][0], "items": cases[3][1], "impl": impl_out[3]})
     ctx.sample({"n": cases[-1][0], "items": cases[-1][1][:8], "impl_keys": len((impl_out[len(cases) - 1].get("ok") or []))})
     model_out = core.Driver(ctx.pid).batch(reqs)
@@ -128,12 +189,17 @@ def main(ctx):
                             "with fix_counts on every case of this run (dict modelled as its item list)",
                             "Python's str ordering / int(s,2) / format(k,'b').zfill(n) as modelled by lexLe/toNat/keyOf"]
     ctx.assumptions += ["keys are n-character strings over {0,1}, n >= 1, table non-empty (the property's domain)",
-                        "the clause about Qiskit's little-endian order of simulator results is decided under C03"]
+                        "the clause about simulator results is checked end to end (noise-free gate set, Qiskit's own Statevector as the "
+                        "reference, classical bits 0..m-1 fed by qubits in arbitrary order) on the circuits of this run; the frame "
+                        "correctness it rests on is C03, the measurement map C14"]
     # ---- decide
     for n, items, bad in oracle_fail[:5]:
         ctx.violation({"kind": "oracle", "n": n, "keys": sorted(k for k, _ in items)},
                       {"n": n, "items": items, "failure": bad}, f"fix_counts({dict(items)!r}, {n}): {bad}")
-    if not oracle_fail:
+    for cls, n, ops, bad in sim_fail[:2]:
+        ctx.violation({"kind": "simulator-clause", "cls": cls}, {"cls": cls, "nqubit": n, "ops": ops, "failure": bad},
+                      f"{cls} circuit {json.dumps(ops)}: {bad}")
+    if not oracle_fail and not sim_fail:
         if mismatches:
             r, a, b = mismatches[0]
             ctx.violation({"kind": "correspondence"}, {"request": r, "impl": a, "model": b,
@@ -147,6 +213,10 @@ def main(ctx):
 
 def replay(ctx, path):
     rp = json.load(open(path))["replay"]
+    if "ops" in rp:
+        ops, bad = simulator_clause_case(None, rp["cls"], rp["nqubit"], given=rp["ops"])
+        print(rp["cls"], ops); print("oracle:", bad or "holds")
+        return 1 if bad else 0
     if "items" not in rp:
         print("replay names a broken obligation, no input to re-run:", json.dumps(rp)[:400]); return 1
     n, items = rp["n"], [tuple(x) for x in rp["items"]]
